@@ -6,6 +6,7 @@ void init(int workers, int reported_concurrency = 0);   // fresh scheduler with 
 void finish();                                           // fails the execution if tasks were left behind or leaked
 bool interleave();                                       // inside a body: optionally let another idle worker run one task now
 int  run_others(int n);                                   // inside a body: other idle workers run up to n tasks now (setup for 'stalled body' variants); returns how many ran
+void set_idle_hook(bool (*hook)());                        // called when a wait has no task left to run: a foreign thread's progress (async activity); returns true if it did something
 int  current_worker();
 Stats stats();
 }
